@@ -349,8 +349,28 @@ func (fr *Frame) evalValue(n *vnode, v ssa.Value) *Val {
 		}
 		x.eng.Note("map lookups return arbitrary values in " + fr.fn.String())
 		return x.freshVal("lookup", i.Type())
-	case *ssa.Range, *ssa.Next:
-		bail("range over map/string in %s", fr.fn)
+	case *ssa.Range:
+		// iteration over a map or string: an opaque iterator; Next yields arbitrary entries
+		x.eng.Note("range over a map/string is modelled as an arbitrary sequence of entries in " + fr.fn.String())
+		r := &Val{T: x.eng.FreshVar("iter", SRef), Ty: i.Type()}
+		if sv := fr.val(i.X, n); sv.T != nil && sv.T.S == SStr {
+			r.Tup = []*Val{{T: sv.T}} // remember the string for bounds of the index
+		}
+		return r
+	case *ssa.Next:
+		tup := i.Type().(*types.Tuple)
+		res := &Val{Ty: i.Type()}
+		for k := 0; k < tup.Len(); k++ {
+			res.Tup = append(res.Tup, x.freshVal(fmt.Sprintf("next%d", k), tup.At(k).Type()))
+		}
+		if i.IsString {
+			it := fr.val(i.Iter, n)
+			if len(it.Tup) == 1 && it.Tup[0].T != nil {
+				idx := res.Tup[1].T
+				x.vc.Assume(Implies(res.Tup[0].T, And(Ge(idx, IntLit(0)), Lt(idx, x.strLen(it.Tup[0].T)))))
+			}
+		}
+		return res
 	case *ssa.SliceToArrayPointer, *ssa.MultiConvert:
 		bail("instruction %T in %s", v, fr.fn)
 	}
@@ -482,13 +502,28 @@ func (fr *Frame) binop(n *vnode, i *ssa.BinOp, av, bv *Val) *Term {
 	if x.wrapSigned && a.S.K == KInt && b.S.K == KInt && bx != nil && isSigned(bx) {
 		// exact two's-complement semantics through a bit-vector detour (contract option wrap-signed)
 		w := intWidth(bx)
+		lo, hi := typeRange(bx)
+		full := IntBig(new(big.Int).Lsh(big.NewInt(1), uint(w)))
+		wrap1 := func(sum *Term) *Term { // operands in range: at most one wrap
+			return Ite(Gt(sum, IntBig(hi)), Sub(sum, full), Ite(Lt(sum, IntBig(lo)), Add(sum, full), sum))
+		}
 		switch op {
 		case token.ADD:
-			return signedOfBV(BVBin("bvadd", Int2BV(a, w), Int2BV(b, w)))
+			if Int2BV(a, w).Op != "int2bv" && Int2BV(b, w).Op != "int2bv" {
+				return signedOfBV(BVBin("bvadd", Int2BV(a, w), Int2BV(b, w))) // values that came from bit-vectors stay there
+			}
+			return wrap1(Add(a, b))
 		case token.SUB:
-			return signedOfBV(BVBin("bvsub", Int2BV(a, w), Int2BV(b, w)))
+			if Int2BV(a, w).Op != "int2bv" && Int2BV(b, w).Op != "int2bv" {
+				return signedOfBV(BVBin("bvsub", Int2BV(a, w), Int2BV(b, w)))
+			}
+			return wrap1(Sub(a, b))
 		case token.MUL:
-			return signedOfBV(BVBin("bvmul", Int2BV(a, w), Int2BV(b, w)))
+			if Int2BV(a, w).Op != "int2bv" && Int2BV(b, w).Op != "int2bv" {
+				return signedOfBV(BVBin("bvmul", Int2BV(a, w), Int2BV(b, w)))
+			}
+			half := IntBig(new(big.Int).Lsh(big.NewInt(1), uint(w-1)))
+			return Sub(EMod(Add(Mul(a, b), half), full), half)
 		}
 	}
 	if a.S.K == KInt && b.S.K == KInt {
@@ -517,6 +552,20 @@ func (fr *Frame) binop(n *vnode, i *ssa.BinOp, av, bv *Val) *Term {
 			x.vc.Oblige("safety.div", "", n.reach, Neq(b, IntLit(0)), x.pos(i.Pos()), "integer divide by zero")
 			x.vc.Assume(Implies(n.reach, Neq(b, IntLit(0))))
 			q := x.truncDiv(a, b)
+			if !b.IsIntLit() {
+				// symbolic divisor: name quotient and remainder and state the non-negative case directly
+				// (SMT div/mod), which is what the solvers handle well
+				qv := x.eng.FreshVar("quo", SInt)
+				rv := x.eng.FreshVar("rem", SInt)
+				x.vc.Assume(Eq(qv, q))
+				x.vc.Assume(Eq(rv, Sub(a, Mul(b, qv))))
+				x.vc.Assume(Implies(And(Ge(a, IntLit(0)), Gt(b, IntLit(0))), And(Eq(qv, App("div", SInt, a, b)), Eq(rv, App("mod", SInt, a, b)))))
+				if op == token.QUO {
+					fr.overflow(n, qv, xt, i.Pos(), "division")
+					return qv
+				}
+				return rv
+			}
 			if op == token.QUO {
 				fr.overflow(n, q, xt, i.Pos(), "division")
 				return q
@@ -896,8 +945,14 @@ func (fr *Frame) convert(n *vnode, i *ssa.Convert) *Val {
 		}
 		return &Val{T: &Term{Op: fmt.Sprintf("(_ to_fp %d %d)", s.W, s.W2), Args: []*Term{App("RNE", nil), t}, S: s}, Ty: i.Type()}
 	case fi&types.IsFloat != 0 && ti&types.IsInteger != 0:
-		x.eng.Note("float to integer conversion returns an arbitrary value in " + fr.fn.String())
-		return x.freshVal("f2i", i.Type())
+		// an unspecified but fixed function of the float (same operand, same result), within the target range
+		x.eng.Note("float to integer conversion is an uninterpreted function of its operand (in range of the target type) in " + fr.fn.String())
+		srt := x.eng.SortOf(i.Type())
+		name := "f2i$" + t.S.Short() + "$" + srt.Short()
+		x.eng.DeclareUF(name, srt, t.S)
+		r := App(name, srt, t)
+		x.vc.Assume(x.typeConstraint(r, i.Type()))
+		return &Val{T: r, Ty: i.Type()}
 	case fi&types.IsString != 0 && ti&types.IsString != 0:
 		return &Val{T: t, Ty: i.Type()}
 	case fi&types.IsInteger != 0 && ti&types.IsString != 0:
@@ -915,13 +970,13 @@ func (fr *Frame) makeInterface(n *vnode, i *ssa.MakeInterface) *Val {
 	a := fr.val(i.X, n)
 	xt := i.X.Type()
 	if _, isPtr := xt.Underlying().(*types.Pointer); isPtr && a.T != nil {
-		x.vc.Assume(Implies(Neq(a.T, IntLit(0)), Eq(x.dynType(a.T), x.typeID(xt.String()))))
+		x.vc.Assume(Implies(Neq(a.T, IntLit(0)), Eq(x.dynType(a.T), x.typeIDOf(xt))))
 		fr.bridge(n, a.T, xt)
 		return &Val{T: a.T, Ty: i.Type(), Fn: a.Fn}
 	}
 	// boxed value
 	r := x.newRef("box")
-	x.vc.Assume(Eq(x.dynType(r), x.typeID(xt.String())))
+	x.vc.Assume(Eq(x.dynType(r), x.typeIDOf(xt)))
 	if a.T != nil {
 		bn := "box$" + a.T.S.Short()
 		x.eng.DeclareUF(bn, a.T.S, SInt)
@@ -1110,7 +1165,7 @@ func (fr *Frame) typeAssert(n *vnode, i *ssa.TypeAssert) *Val {
 		x.eng.DeclareUF("implements", SBool, SInt, SInt)
 		ok = And(Neq(a.T, IntLit(0)), App("implements", SBool, x.dynType(a.T), x.typeID(i.AssertedType.String())))
 	} else {
-		ok = And(Neq(a.T, IntLit(0)), Eq(x.dynType(a.T), x.typeID(i.AssertedType.String())))
+		ok = And(Neq(a.T, IntLit(0)), Eq(x.dynType(a.T), x.typeIDOf(i.AssertedType)))
 	}
 	var res *Val
 	s := x.eng.SortOf(i.AssertedType)
@@ -1120,6 +1175,7 @@ func (fr *Frame) typeAssert(n *vnode, i *ssa.TypeAssert) *Val {
 		bn := "box$" + s.Short()
 		x.eng.DeclareUF(bn, s, SInt)
 		res = &Val{T: App(bn, s, a.T), Ty: i.AssertedType}
+		x.vc.Assume(x.typeConstraint(res.T, i.AssertedType)) // a boxed value is a well-formed value of its type
 	}
 	if i.CommaOk {
 		zero := x.zeroOf(i.AssertedType)
